@@ -165,6 +165,36 @@ theorem mem_grid : ∀ (ns bs : List Nat), bs ∈ grid ns ↔ InGrid ns bs
     · rintro ⟨hb, hbs⟩
       exact ⟨b, hb, bs, (mem_grid ns bs).mpr hbs, rfl⟩
 
+theorem range_flatMap_blocks (n P : Nat) :
+    (List.range n).flatMap (fun b => (List.range P).map (fun r => b * P + r)) = List.range (n * P) := by
+  induction n with
+  | zero => simp
+  | succ n ih =>
+    rw [List.range_succ, List.flatMap_append, ih, Nat.succ_mul, List.range_add]
+    simp
+
+/-- `itertools.product` order IS flat-index order: the k-th block of the grid has flat index k. -/
+theorem grid_rowMajor : ∀ ns : List Nat, (grid ns).map (rowMajor ns) = List.range (nblocks ns)
+  | [] => by simp [grid, rowMajor, nblocks, List.range_succ]
+  | n :: ns => by
+    have ih := grid_rowMajor ns
+    simp only [grid, nblocks, List.map_flatMap, List.map_map]
+    have : ∀ b : Nat, (List.map (rowMajor (n :: ns) ∘ fun bs => b :: bs) (grid ns))
+        = (List.range (nblocks ns)).map (fun r => b * nblocks ns + r) := by
+      intro b
+      rw [← ih, List.map_map]
+      apply List.map_congr_left
+      intro bs _
+      simp [rowMajor]
+    simp only [this]
+    exact range_flatMap_blocks n (nblocks ns)
+
+theorem grid_flatIndex (ns : List Nat) : (grid ns).map (flatIndex ns) = List.range (nblocks ns) := by
+  rw [← grid_rowMajor ns]
+  apply List.map_congr_left
+  intro bs h
+  exact flatIndex_eq_rowMajor ns bs (inGrid_length _ _ ((mem_grid ns bs).mp h))
+
 /-! ## generators, nodes, histories -/
 
 theorem construct_params (spawn : Nat → Nat → Nat) (k : Kind) (g : Gen) (p : Params) :
